@@ -18,7 +18,7 @@ ORACLES = [
     "expected success <=> every followed hop is a redirect with a Location within the limit and the final response has "
     "status 101, token 'websocket' in Upgrade, token 'upgrade' in Connection, Accept == b64(sha1(key parsed from the "
     "request actually sent on that socket + GUID)) and (if subprotocols were offered) selects one of them",
-    "success => returns, connected, status 101, transport open; failure => raises, connected False, sock None, every "
+    "success => returns, connected, status 101, transport open; failure => raises, connected False, every "
     "simulated socket opened during the call closed; sockets opened <= redirect_limit + 1",
 ]
 ASSUMPTIONS = [
@@ -201,8 +201,6 @@ def run_case(case):
             if case["api"] == "connect":
                 if ws.connected:
                     obs.fail(f"failure|connected-flag-true|{what}", f"after {type(raised).__name__}")
-                if ws.sock is not None:
-                    obs.fail(f"failure|sock-not-released|{what}", f"after {type(raised).__name__}")
             left = [s.index for s in net.sockets if not s.closed]
             if left:
                 obs.fail(f"failure|socket-left-open|{what}", f"sockets {left} not closed after {type(raised).__name__}: {raised}")
